@@ -101,7 +101,7 @@ static SNDFILE *open_root (void)
 
 static void run_history (const int *h, int depth)
 {	SNDFILE *sf = open_root () ; char rs [96] ; uint64_t oh = VL_H0 ;
-	snprintf (rs, sizeof (rs), "%s", rt_fam (F)) ;
+	snprintf (rs, sizeof (rs), "%s", major_name (F->format)) ;
 	if (! sf) { vl_note ("open refused: %s", sf_strerror (NULL)) ; return ; }
 	for (int i = 0 ; i < depth ; i++)
 	{	const Op *o = &ops [h [i]] ; int kl = o->klass (), e ; uint64_t before_meta = pk_meta_hash (sf), before_dev = md_hash (&dev) ; long r ; const char *txt ;
@@ -126,7 +126,7 @@ static void run_history (const int *h, int depth)
 			int recorded = e != 0 || (o->retkind == RK_CODE && r != 0) ;
 			const char *t2 = e != 0 ? txt : (o->retkind == RK_CODE && r > 0 && r <= pk_max_error ()) ? sf_error_number ((int) r) : "" ;
 			if (! failed_value)
-				vl_violation (rt_sig ("%s|%s|failure-value", rs, o->name), "invalid %s returned %ld (documented failure value: %s)", o->name, r, o->retkind == RK_COUNT ? "0" : o->retkind == RK_SEEK ? "-1" : "non-zero") ;
+				vl_violation (rt_sig ("%s|%s|failure-value", o->run == op_chunksize_null ? "any" : rs, o->name), "invalid %s returned %ld (documented failure value: %s)", o->name, r, o->retkind == RK_COUNT ? "0" : o->retkind == RK_SEEK ? "-1" : "non-zero") ;
 			if (! recorded)
 				vl_violation (rt_sig ("%s|%s|no-error-recorded", rs, o->name), "invalid %s returned %ld and left sf_error at 0", o->name, r) ;
 			else if (t2 [0] == 0 || strcmp (t2, bad_text) == 0)
@@ -214,7 +214,7 @@ void harness_run (void)
 	error_table () ;
 	failed_opens () ;
 	for (int ri = 0 ; root_fmts [ri].fmt ; ri++)
-	{	if (! vl_opts.thorough && ri >= 6) break ;
+	{
 		F = fmt_by_name (root_fmts [ri].fmt) ; CH = root_fmts [ri].ch ;
 		if (! F) continue ;
 		build_seed () ;
